@@ -637,6 +637,17 @@ func galoisForDiags(p rlwe.Parameters, diags []int) (galEls []uint64) {
 	return
 }
 
+// ZEROCOND control: the negative case tests the index that has not been computed yet
+func wrapIndex(i, n int) int {
+	var j int
+	if i > 0 {
+		j = i - n
+	} else if j < 0 {
+		j = i + n
+	}
+	return j
+}
+
 func rnsBad(r *ring.Ring, v uint64) (rns ring.RNSScalar) {
 	rns = make(ring.RNSScalar, r.Level()+1)
 	for i := range rns {
